@@ -633,6 +633,22 @@ func WellformedType(ctx map[ast.Variable]ast.BaseTerm, expr ast.BaseTerm) error 
 			if len(requiredArgs)%2 != 0 {
 				return fmt.Errorf("struct type must have even number of required arguments %v ", expr)
 			}
+			optionalArgs, err := StructTypeOptionaArgs(expr)
+			if err != nil {
+				return err
+			}
+			for _, opt := range optionalArgs {
+				optArgs := opt.(ast.ApplyFn).Args
+				if len(optArgs) != 2 {
+					return fmt.Errorf("in a struct type expression, an optional field must be fn:opt(name, type), got %v in %v ", opt, expr)
+				}
+				if c, ok := optArgs[0].(ast.Constant); !ok || c.Type != ast.NameType {
+					return fmt.Errorf("in a struct type expression, the first argument of %v must be a name constant %v ", opt, expr)
+				}
+				if err := WellformedType(ctx, optArgs[1]); err != nil {
+					return fmt.Errorf("in a struct type expression %v : %w", expr, err)
+				}
+			}
 			for i := 0; i < len(requiredArgs); i++ {
 				key := requiredArgs[i]
 				if c, ok := key.(ast.Constant); !ok || c.Type != ast.NameType {
